@@ -55,7 +55,8 @@ func VerifC20_NoLeak() {
 		case 1:
 			SetListenerConfig(zzListener("l"+string(rune('0'+i%2)), k, n))
 		case 2:
-			SetClusterConfig(v2.Cluster{Name: "c" + string(rune('0'+i%2)), TLS: zzTLS(k)})
+			// a cluster may still carry its own context (and key) although it is switched to the manager's
+			SetClusterConfig(v2.Cluster{Name: "c" + string(rune('0'+i%2)), TLS: zzTLS(k), ClusterManagerTLS: verif.Choose("cluster_manager_tls", 2) == 1})
 		case 3:
 			SetClusterManagerTLS(zzTLS(k))
 		case 4:
